@@ -2,6 +2,7 @@
 from __future__ import annotations
 
 import ast
+import os
 from typing import Dict, List
 
 from ..absint import Const, EnumV, IntIv, Interp, Opaque, Rec, StrOf, Tup, as_iv, is_none, NONE
@@ -547,10 +548,37 @@ def r18_8(ctx):
     if got == ref:
         ctx.ok(where, "distance == Rich's integer weighted-RGB metric (normal forms equal)", f.fq)
         return
-    if poly.skeleton(got) == poly.skeleton(ref):
-        ctx.violation(f.fq, short(ret), where, f"the distance has the shape of Rich's metric but different weights/divisors: {poly.show(got)}  (metric: {poly.show(ref)})")
+    # normal forms differ: look for a witness that the two distances ORDER two palette entries differently for some colour
+    # (exact evaluation of the two normal forms - terms of the checker, not code of the package - at integer points; a monotone
+    # re-scaling of the metric orders every pair the same way and yields no witness)
+    import random
+    pal = []
+    for pname in ("STANDARD_PALETTE", "WINDOWS_PALETTE"):
+        try:
+            pal.append([tuple(t) for t in literal(ctx.repo.mod("_palettes").global_assign(pname).args[0])])
+        except Exception:
+            pass
+    if not pal:
+        raise AnalysisError("R18.8: palettes not readable for the order comparison")
+    rng = random.Random(int(os.environ.get("VERIF_SEED", "0") or 0))
+    sign = lambda x: (x > 0) - (x < 0)
+    witness = None
+    for trial in range(60000):
+        entries = pal[trial % len(pal)]
+        q = (rng.randrange(256), rng.randrange(256), rng.randrange(256))
+        i, j = rng.sample(range(len(entries)), 2)
+        d = []
+        for e in (entries[i], entries[j]):
+            env_ = {"q0": q[0], "q1": q[1], "q2": q[2], "e0": e[0], "e1": e[1], "e2": e[2]}
+            d.append((poly.evaluate(ref, env_), poly.evaluate(got, env_)))
+        if sign(d[0][0] - d[1][0]) != sign(d[0][1] - d[1][1]):
+            witness = (q, entries[i], entries[j], d)
+            break
+    if witness is not None:
+        q, e1, e2, d = witness
+        ctx.violation(f.fq, short(ret), where, f"the distance is not Rich's metric and orders palette entries differently: for rgb{q} Rich's metric gives {d[0][0]} to {e1} and {d[1][0]} to {e2}, this expression {d[0][1]} and {d[1][1]} - the nearest entry changes. got: {poly.show(got)}")
         return
-    raise AnalysisError(f"Palette.match: cannot show the distance equal to Rich's metric nor positively different: {poly.show(got)}")
+    raise AnalysisError(f"Palette.match: cannot show the distance equal to Rich's metric, and no colour was found that it orders differently: {poly.show(got)}")
 
 
 RULES = [r18_0, r18_1, r18_4, r18_5, r18_6, r18_7, r18_8]
